@@ -28,6 +28,8 @@ func (x *FnIndex) countedFromZero(cell *ssa.Alloc) (bound ssa.Value, ok bool) {
 func runC13(c *Ctx) {
 	// the pool's DAG method hands the model's error to its caller ("the call returns an error")
 	c.armPoolError("G4-pool-reports-the-error", func(m string) bool { return m == "ExecuteDAGModel" }, 1)
+	// ... and hand their own arguments to the engine method of the same name, each in its place
+	c.armPoolArgs("G6-pool-passes-its-arguments", func(m string) bool { return m == "ExecuteDAGModel" }, 1)
 
 	fn := c.MustFn("G1-layer-barrier", "engine", "Gengine", "ExecuteDAGModel")
 	if fn == nil {
